@@ -305,3 +305,64 @@ def through_callees(prog, fn, pred, depth=3, _memo=None):
         return False
 
     return lambda s: pred(s) or any_callee(fn, s, depth)
+
+
+def _simple_flag(c):
+    """(access path, negated) for a condition of the shape x / !x, else None."""
+    c = ir.strip(c)
+    neg = False
+    while isinstance(c, dict) and c.get("k") == "un" and c.get("op") == "!":
+        neg = not neg
+        c = ir.strip(c["e"])
+    if isinstance(c, dict) and c.get("k") in ("mem", "var", "deref"):
+        p = ir.ap(c)
+        if p:
+            return p, neg
+    return None
+
+
+def edge_dominated_correlated(fn, pos, cond_pred):
+    """Like edge_dominated, but branches that re-test a flag (x / !x) whose
+    value is already known on the current path - and was not written, and no
+    wait / unlock intervened - are followed only on the consistent edge."""
+    tb, ti = pos
+    seen = set()
+    st = [(fn.entry, ())]
+    while st:
+        b, know = st.pop()
+        if (b, know) in seen:
+            continue
+        seen.add((b, know))
+        if b == tb:
+            return False
+        k = dict(know)
+        blk = fn.blocks[b]
+        for s_ in blk.stmts:
+            for lv, op, rhs, w in ir.writes_of(s_):
+                p = ir.ap(lv)
+                if p in k:
+                    del k[p]
+            for c in ir.calls_in(s_):
+                n = c.get("fn") or ""
+                if "wait" in n or "release" in n or "unlock" in n:
+                    k = {}
+        c = blk.cond_node()
+        flag = _simple_flag(c) if (c is not None and len(blk.succs) == 2) else None
+        for sc in blk.succs:
+            t = sc.get("to")
+            if t is None:
+                continue
+            lab = sc.get("label")
+            if c is not None and len(blk.succs) >= 2:
+                if lab is None and "case" in sc:
+                    lab = ("case", sc["case"].get("v"), sc["case"].get("e"))
+                if cond_pred(c, lab, blk):
+                    continue  # accepted guard edge
+            k2 = dict(k)
+            if flag is not None and lab in ("true", "false"):
+                val = (lab == "true") != flag[1]
+                if flag[0] in k2 and k2[flag[0]] != val:
+                    continue  # contradicts an earlier test of the same flag
+                k2[flag[0]] = val
+            st.append((t, tuple(sorted(k2.items()))))
+    return True
